@@ -3,10 +3,12 @@
 From Coq Require Extraction ExtrOcamlBasic.
 From VBase Require Import MachInt.
 From VGen Require Import Mds12 Mds8 F64.
+From VGen Require F62.
 From VModel Require Import RescueConsts Rescue ByteHash.
 Extraction Language OCaml.
 Separate Extraction
   rp64_permutation rp62_permutation jive_permutation rp64_raw_permutation jive_raw_permutation
+  rp64_raw_hash_elements rp62_raw_hash_elements jive_raw_hash_elements f64_new F62.f62_new
   rp64_hash rp62_hash jive_hash rp64_hash_elements rp62_hash_elements jive_hash_elements
   rp64_merge rp62_merge jive_merge rp64_merge_with_int rp62_merge_with_int jive_merge_with_int
   mds12_multiply mds12_multiply_ok mds8_multiply mds8_multiply_ok
